@@ -650,12 +650,21 @@ class Verifier:
             if r is not _MISSING:
                 return r
         f = z3.Function(f"isinst_{name}", sort_of(sv.ty), z3.BoolSort())
+        if sv.ty.key in self.NULLABLE:
+            # None is an instance of no class
+            I.ctx.define(f"none-not-{name}-{sv.ty.key}", lambda: z3.Not(f(self.none_const(sv.ty))))
         return SV(f(sv.t), BOOL)
 
     def abs_len(self, I, sv):
+        ops = self.abs_ops().get(sv.ty.key, {})
+        if "len" in ops:
+            return ops["len"](I, sv)
         f = z3.Function(f"len_{sv.ty.key}", sort_of(sv.ty), z3.IntSort())
         I.ctx.assume(f(sv.t) >= 0)
         return SV(f(sv.t), INT)
+
+    def abs_ops(self):
+        return self.spec_ns.get("abs_ops", {})
 
     def abs_index(self, I, base, idx, node):
         raise Unsupported(f"subscript of abstract {base.ty}")
